@@ -347,7 +347,7 @@ func (g *exprGen) leaf(k model.Kind) model.Expr {
 		case 1:
 			return model.Index{X: model.Var{Name: "ob"}, I: model.Lit{V: model.Str("s")}}
 		}
-		return model.StrLit{S: []string{"a", "b c", "", "q", "a&b", "<i>", "x > y"}[r.Intn(7)], Quote: "\"'"[r.Intn(2)]}
+		return model.StrLit{S: []string{"a", "b c", "", "q", "a&b", "<i>", "x > y", "it's", "say \"hi\"", "'", "\"\"", "O'Br\"ien", "a\\b"}[r.Intn(13)], Quote: "\"'"[r.Intn(2)]}
 	case model.KBool:
 		switch r.Intn(3) {
 		case 0:
@@ -628,6 +628,27 @@ func boundaryCases() []func(c *core.Ctx) {
 	add(bin("+", lit(model.Int(1)), model.Var{Name: "nope"}), nil)
 	add(model.Ternary{C: lit(model.Bool(true)), A: lit(model.Int(1)), B: model.Var{Name: "nope"}}, nil)
 	add(model.Ternary{C: lit(model.Bool(false)), A: lit(model.Int(1)), B: model.Var{Name: "nope"}}, nil)
+	// floats with a fraction on both sides of every power of two a conversion might be cut at, under
+	// the postfix and prefix operators and next to small operands; as literals, as data, from arithmetic
+	for _, f := range []float64{0.5, 1.5, 255.5, 256.5, 65535.5, 65536.5, 2147483647.5, 2147483648.5, 4294967295.5, 4294967296.5, 4294967297.25,
+		1099511627776.5, 4503599627370495.5, 1e15 + 0.5, 123456789012.125} {
+		for _, sign := range []float64{1, -1} {
+			v := model.Float(sign * f)
+			fd := map[string]model.Value{"fv": v, "half": model.Float(0.5)}
+			var le model.Expr = lit(v)
+			if sign < 0 {
+				le = model.Paren{X: model.Unary{Op: "-", X: lit(model.Float(f))}}
+			}
+			for _, x := range []model.Expr{le, model.Var{Name: "fv"}, model.Paren{X: bin("+", bin("-", model.Var{Name: "fv"}, model.Var{Name: "half"}), lit(model.Float(0.5)))}} {
+				add(model.Postfix{Op: "--", X: x}, fd)
+				add(model.Postfix{Op: "++", X: x}, fd)
+				add(model.Unary{Op: "-", X: x}, fd)
+				add(bin("-", x, lit(model.Float(1.0))), fd)
+				add(bin("<", model.Postfix{Op: "--", X: x}, x), fd)
+				add(bin("==", bin("+", model.Postfix{Op: "--", X: x}, lit(model.Float(1.0))), x), fd)
+			}
+		}
+	}
 	// integer literals at and beyond the 64-bit range: source written by hand
 	for _, src := range []struct {
 		lit   string
